@@ -597,6 +597,8 @@ class Provenance:
             if pat and pat.get("k") == "Bind":
                 env[pat["v"]] = args[i] if args is not None and i < len(args) else ("param", pat["v"].split("#")[0])
         self.sites = getattr(self, "sites", [])
+        if depth == 0:
+            self.crate = f["crate"]
         ret = self.block(f["body"], env, depth)
         return ret
 
@@ -630,10 +632,20 @@ class Provenance:
             return ("static", n.get("id"))
         if k == "Repeat":
             return ("fresh-buffer", n.get("n"))
-        if k in ("If", "Match"):
+        if k in ("If", "Match", "Loop"):
             for c in children(n):
                 self.term(c, env, depth)
             return ("?", k)
+        if k == "For":
+            it = self.term(n["iter"], env, depth)
+            if n["pat"].get("k") == "Bind":
+                env[n["pat"]["v"]] = ("loop", n["pat"]["v"].split("#")[0], it)
+            self.term(n["body"], env, depth)
+            return ("unit",)
+        if k == "Adt":
+            return ("adt", n.get("adt"), n.get("variant"), [self.term(f_["e"], env, depth) for f_ in n.get("fields", [])])
+        if k in ("Array", "Tuple"):
+            return ("tuple", [self.term(e_, env, depth) for e_ in n.get("es", [])])
         if k == "Index":
             return ("call", "index", [self.term(n["e"], env, depth), self.term(n["i"], env, depth)])
         if k == "Field":
@@ -650,7 +662,7 @@ class Provenance:
             self.sites.append((c, args, n))
             target = (n.get("res") or {}).get("fn") or n.get("fn")
             h = self.facts.fns.get(target)
-            if h is not None and h["crate"] == "savefile" and h.get("body") and depth < 4 and not (h.get("impl") or {}).get("trait") \
+            if h is not None and h["crate"] == self.crate and h.get("body") and depth < 4 and not (h.get("impl") or {}).get("trait") \
                     and not c.endswith(("::new", "::load", "::save")):
                 return Provenance.run(self, h, args, depth + 1)
             if any(c.endswith(t) for t in TRANSPARENT) and len(args) == 1:
@@ -902,7 +914,8 @@ def k7(facts, tier):
                 continue
             for x in walk(s):
                 if x.get("k") == "Call" and (callee(x) or "").endswith(("Read>::read", "Read>::read_exact", "Read>::read_to_end",
-                                                                         "Read::read", "Read::read_exact", "Read::read_to_end")):
+                                                                         "Read::read", "Read::read_exact", "Read::read_to_end",
+                                                                         "io::copy::copy", "io::copy")):
                     recv = peel(x["args"][0]) if x.get("args") else {}
                     if recv.get("k") == "Var" and recv["v"] == D:
                         par = pm.get(id(x))
@@ -910,7 +923,7 @@ def k7(facts, tier):
                         if par is not None and par.get("k") == "Try":
                             drained = True
         yield ob(["C14", "C07"], "K7", "decompressor-driven-to-end", "pass" if drained else "violation", where(f),
-                 f"{f['id']}: after the value is read the {ctor.split('::')[-2] if '::' in ctor else ctor} is read once more with its error propagated" if drained else
+                 f"{f['id']}: after the value is read the {ctor.split('::')[-2] if '::' in ctor else ctor} is read to its end with the error propagated" if drained else
                  f"{f['id']}: the decompressor is dropped as soon as the value has been read: its end-of-stream trailer is never demanded, so a "
                  f"file truncated inside that trailer (for an encrypted file: with its final chunk removed) loads successfully")
 
@@ -1201,3 +1214,64 @@ def k5(facts, tier):
     else:
         yield ob(["C14"], "K5", "nonce-injective", "pass", where(f),
                  f"{f['id']}: the {len(slots)} nonce bytes are the {len(want)} bytes of the stored state, one per slot")
+
+
+
+# ---------------------------------------------------------------------------------------------
+# Q7 (C15): the ledger file of version v holds, and is compared against, the definition of version v
+
+def mentions(t, pred):
+    if pred(t):
+        return True
+    if isinstance(t, (tuple, list)):
+        return any(mentions(x, pred) for x in t if isinstance(x, (tuple, list)))
+    return False
+
+
+@rule("Q7", ["C15"], floor=4, doc="verify_compatiblity: in the loop over the interface versions, the file name, the definition written to a new "
+      "ledger file, the definition checked against an existing one and the version handed to the check are all those of the loop's "
+      "version; the loop covers 0..=latest")
+def q7(facts, tier):
+    f = facts.fns.get("savefile_abi::verify_compatiblity")
+    if f is None:
+        return
+    pv = Provenance(facts)
+    pv.sites = []
+    pv.run(f)
+    is_loopvar = lambda t: isinstance(t, tuple) and len(t) >= 2 and t[0] == "loop"
+    def_of_loop = lambda t: isinstance(t, tuple) and t and t[0] == "call" and t[1].endswith("get_definition") and \
+        len(t[2]) == 1 and is_loopvar(t[2][0])
+    def_of_other = lambda t: isinstance(t, tuple) and t and t[0] == "call" and t[1].endswith("get_definition") and not def_of_loop(t)
+    saves = [(c, a, n) for c, a, n in pv.sites if c.endswith(("save_file_noschema", "save_file", "save_noschema"))]
+    checks = [(c, a, n) for c, a, n in pv.sites if c.endswith("verify_backward_compatible")]
+    loads = [(c, a, n) for c, a, n in pv.sites if c.endswith(("load_file_noschema", "load_file", "load_noschema"))]
+    loopv = [t for c, a, n in pv.sites for t in a if is_loopvar(t)]
+    # range of the loop
+    rng = next((t[2] for t in loopv if len(t) > 2), None)
+    full = isinstance(rng, tuple) and rng[0] == "call" and rng[1].endswith("RangeInclusive::new") and rng[2][0] == ("const", 0) \
+        and isinstance(rng[2][1], tuple) and rng[2][1][0] == "call" and rng[2][1][1].endswith("get_latest_version")
+    yield ob(["C15"], "Q7", "loop-covers-all-versions", "pass" if full else ("undecided" if rng is None else "violation"), where(f),
+             "the ledger loop runs over 0..=T::get_latest_version()" if full else f"the ledger loop runs over {show_term(rng)}, not 0..=latest")
+    for c, a, n in saves:
+        ok = len(a) >= 3 and def_of_loop(a[2])
+        other = len(a) >= 3 and (def_of_other(a[2]))
+        yield ob(["C15"], "Q7", "recorded-definition-is-that-of-the-loop-version", "pass" if ok else ("violation" if other else "undecided"),
+                 where(f, n),
+                 "a new ledger file receives T::get_definition(version) of the loop's version" if ok else
+                 f"the ledger file of the loop's version receives {show_term(a[2]) if len(a) >= 3 else '?'}: a file created for an older version "
+                 f"records a different version's definition, and the next run over the unchanged interface fails (or a breaking change passes)")
+        okn = mentions(a[0], is_loopvar) if a else False
+        yield ob(["C15"], "Q7", "file-name-carries-the-loop-version", "pass" if okn else "violation", where(f, n),
+                 "the file name is built from the loop's version" if okn else "the name of the ledger file written does not depend on the loop's version")
+    for c, a, n in checks:
+        ok = len(a) >= 3 and def_of_loop(a[0]) and is_loopvar(a[1])
+        bad = len(a) >= 3 and (def_of_other(a[0]) or not is_loopvar(a[1]))
+        yield ob(["C15"], "Q7", "checked-definition-is-that-of-the-loop-version", "pass" if ok else ("violation" if bad else "undecided"), where(f, n),
+                 "an existing ledger file is compared with T::get_definition(version) at that version" if ok else
+                 f"an existing ledger file is compared with {show_term(a[0])} at version {show_term(a[1]) if len(a) > 1 else '?'}")
+        prev = a[2] if len(a) >= 3 else None
+        okp = any(prev == ("call", lc, la) or mentions(prev, lambda t: t == ("call", lc, la)) for lc, la, _ in loads) and \
+            any(mentions(la[0], is_loopvar) for lc, la, _ in loads if la)
+        yield ob(["C15"], "Q7", "compared-against-the-file-of-the-loop-version", "pass" if okp else "undecided", where(f, n),
+                 "the recorded definition is loaded from the file named after the loop's version" if okp else
+                 "origin of the recorded definition not recognised")
